@@ -23,7 +23,32 @@ var ruleAddenda = map[string]string{
 	"C20": "cr variant transport-close-lingers: the transport's Close takes 2 s; nothing of the library runs when Close returns.",
 }
 
+// sixth batch
+var ruleAddenda6 = map[string]string{
+	"C01": "Payloads handed over by Read are re-checked after the later reads. s.fanout: one payload slice written on two connections at once (slice equals its private copy at every transport write; each peer receives it); race units over the same bodies.",
+	"C02": "Part fault: the k-th transport Write (every k) fails once after a short write and the program goes on; the wire stays a well-formed stream (possibly ending inside a frame), complete messages are written messages in order, acknowledged messages are complete.",
+	"C03": "Part runs: 1,2,50,98..101,128,300,1000 empty fragments / Pings / Pongs inside a message. Part accepted: frames buffered with the handshake request (every split, real Accept).",
+	"C04": "schedx s.conc: inbound header in two pieces while writers write, transport ends 1 byte / half way before the end of the message: the read fails.",
+	"C06": "s.closeframe: the first Close frame has its reserved bits clear and exactly the code/reason, also behind the first frame of a compressed stream. Received reasons: 3-byte runes, cut runes, bytes >= 0x80.",
+	"C07": "Mixed streams with ops readExact and wsjsonBad.",
+	"C08": "takeover-text sequences A,B,A,A at limits 1024/4096/10000.",
+	"C09": "s.twoconn: two connections' first compressed reads coincide, then Close / CloseNow.",
+	"C10": "Compressed programs: threshold 1, ops RC/W1/WM.",
+	"C11": "HTTP/0.9 and 1.2; space-glued Connection/Upgrade values; buffered part with another connection in between and with Pings.",
+	"C12": "nil options for every other default case; U+0130 in the origin host against request host wiki.example.com.",
+	"C13": "space-/tab-glued Connection and Upgrade values.",
+	"C14": "Part limited (context-takeover sequences at small read limits); fourth exchange message with chunks 50/700/50/900.",
+	"C15": "Part accepted: Pings buffered with the handshake request are answered in order.",
+	"C17": "Part pages: buffers at the edge of a mapped region with PROT_NONE neighbours (faults are reported).",
+	"C18": "stream part over all five compression agreements; s.xconn through the adapter.",
+	"C19": "Part sequences: sequences <= 3 over 6 documents with untouched read limit, compression off/takeover/no takeover.",
+	"C20": "cr variants unfinished-message and ping-then-header.",
+}
+
 func init() {
+	for id, add := range ruleAddenda6 {
+		ruleAddenda[id] += " " + add
+	}
 	for id, add := range ruleAddenda {
 		p := props[id]
 		p.Rule += " " + add
